@@ -348,4 +348,8 @@ def decodeOp (s : Topo) : RawOp → Op
 
 def stepRaw (d : Nat) (s : Topo) (r : RawOp) : Topo × Bool := step d s (decodeOp s r)
 
+def runRaw (d : Nat) (s : Topo) : List RawOp → Topo
+  | [] => s
+  | r :: rs => runRaw d (stepRaw d s r).1 rs
+
 end KoordVerif.C15
